@@ -46,6 +46,23 @@ pub fn valid_files(rng: &mut Rng, n_each: usize, max_len: usize) -> Vec<ValidFil
         if let Outcome::Ok(bytes) = lzip_compress(&data, &lz, member, &[data.len()]) {
             v.push(ValidFile { name: format!("lzip-{kind}-{len}-m{}", member.is_some()), fmt: "lzip", bytes, data, check: 1 });
         }
+        // several members (one of them possibly empty), as `cat a.lz b.lz` produces
+        {
+            let mut bytes = vec![];
+            let mut data = vec![];
+            let k = rng.range(2, 4);
+            let empty_at = if rng.chance(1, 2) { Some(rng.below(k)) } else { None };
+            for j in 0..k {
+                let l = if empty_at == Some(j) { 0 } else { rng.range(1, (max_len as u64 / 2).max(2)) as usize };
+                let d = gen_data(rng, "text", l);
+                let lz = small_lz(rng);
+                if let Outcome::Ok(c) = lzip_compress(&d, &lz, None, &[d.len()]) {
+                    bytes.extend(c);
+                    data.extend(d);
+                }
+            }
+            v.push(ValidFile { name: format!("lzip-members{k}-empty{}", empty_at.map(|e| e as i64).unwrap_or(-1)), fmt: "lzip", bytes, data, check: 1 });
+        }
     }
     v
 }
@@ -118,6 +135,26 @@ fn check_mutant(rep: &mut Report, f: &ValidFile, mutant: &[u8], what: &str, mode
         }
         Outcome::Panic(m) => rep.fail(&format!("corrupt-panic:{}", f.fmt), &format!("reader panicked on corrupted input: {m}"), detail()),
         Outcome::Err(..) => {}
+    }
+    // the multi-threaded LZIP reader (backward member scan) on the same bytes: error or the original, and it must
+    // come back (the source fails after a budget of calls)
+    if f.fmt == "lzip" {
+        let m2 = mutant.to_vec();
+        let o = guard(|| {
+            let mut r = lzma_rust2::LZIPReaderMT::new(BudgetCursor::new(m2, 200_000), 2)?;
+            read_all_sched(&mut r, &[4096], cap)
+        });
+        rep.count(&format!("outcome-mt.{}", o.class()));
+        match &o {
+            Outcome::Ok(out) => {
+                if out != &f.data {
+                    rep.fail(&format!("corrupt-accepted:lzip-mt:{}", what.split('@').next().unwrap_or(what)), &format!("LZIPReaderMT decoded a corrupted file successfully to different data ({} bytes, original {})", out.len(), f.data.len()), detail());
+                }
+            }
+            Outcome::Err(_, m) if m.contains("call-budget-exhausted") => rep.fail("decoder-hang:lzip-mt", "LZIPReaderMT made more than 200000 read/seek calls on a small corrupted file (no progress)", detail()),
+            Outcome::Panic(m) => rep.fail("corrupt-panic:lzip-mt", &format!("LZIPReaderMT panicked on corrupted input: {m}"), detail()),
+            Outcome::Err(..) => {}
+        }
     }
 }
 
@@ -454,6 +491,19 @@ pub fn run_c12(rep: &mut Report, rng: &mut Rng, thorough: bool) {
             };
             if !same {
                 rep.fail(&format!("short-reads-change-result:{}", if is_xz { "xz" } else { "lzip" }), &format!("source delivering 1..6 bytes per call: {} ; contiguous source: {}", short.describe(), whole.describe()), detail());
+            }
+        }
+        if !is_xz && legal {
+            // the multi-threaded reader on the same member sequence (empty members included)
+            let b2 = bytes.clone();
+            let o = guard(|| {
+                let mut r = lzma_rust2::LZIPReaderMT::new(BudgetCursor::new(b2, 500_000), *rng.pick(&[1u32, 2, 4]))?;
+                read_all_sched(&mut r, &[4096], cap)
+            });
+            match &o {
+                Outcome::Ok(out) if out == &data => {}
+                Outcome::Ok(out) => rep.fail("lzip-mt-concat-mismatch", &format!("LZIPReaderMT returned {} bytes for a member sequence holding {}", out.len(), data.len()), detail()),
+                other => rep.fail(&format!("lzip-mt-concat-{}", other.class()), &format!("valid member sequence rejected by LZIPReaderMT: {}", other.describe()), detail()),
             }
         }
         if is_xz {
